@@ -325,7 +325,7 @@ def run_case(case, ctx):
         return
       want = fn(r) if r > 0 else (0.0, 0.0, 0.0)
       ctx.count("modifier_default_start_points")
-      if any(abs(g - w) > 1e-9 * (1 + abs(w)) for g, w in zip(got, want)):
+      if any(not (abs(g - w) <= 1e-9 * (1 + abs(w))) for g, w in zip(got, want)):
         ctx.violation("modifier_default_start", "%s-X (modifier without leading range marker) at r=%r: value/deriv/deriv2 = %r, expected %r (acts for r > 0 only)" % (key, r, got, want),
                       what="modifier_default_start")
         return
